@@ -107,6 +107,12 @@ CHECKS = {
         text="rotate_orbs is linear in (h1, chol) and quadratic in C: every X = E_ij in every slot and every C in {E_ab, E_ab+E_cd, dense invertible} decides C^T X C exactly (non-symmetric X and non-orthogonal C included); covariance by BFS over words of 15 generators to depth 3 (4 thorough), rotate_orbs applied cumulatively to the already rotated Hamiltonian (non-initial states), energies / force biases equal to the initial state's and overlap ratio 1 for rhf, uhf, ghf, noci trials in every state, states reached by different words compared.",
         note="norb <= 3 (4 thorough); multi-Slater and CI kinds are tied to their orbital basis and outside the quantifier.",
         design="2/C15"),
+    "C07": dict(
+        engine="probmc+schedmc",
+        technique="exhaustive enumeration of all weight words over a 7-letter alphabet x every open interval of comb offsets between exact-rational breakpoints (exact integral of the count functions); stateless exploration of ALL schedules of R rank threads over a virtual MPI communicator (eager and rendezvous sends, deadlock / collective-mismatch detection, visited-state pruning for R=4)",
+        text="Every weight vector of length <= 5 (6, and 8 on 5 letters, thorough) over {1,0,fraction,integer,negative,tiny,huge} and every open offset interval between breakpoints computed in exact rationals (plus the rounding-free exact ties) is run through all five comb implementations on index-tagged walkers: copies of existing walkers only, equal survivor weights, conserved |weight|, floor/ceil counts, zero weight never selected, exact mean N|w_i|/W, up/down copied together, agreement with a boring serial comb. The multi-rank comb is executed on R = 2..4 real rank bodies as threads under a controlled scheduler: every schedule (unpruned for R <= 3, visited-state pruned for R = 4; eager and rendezvous send semantics) must terminate without deadlock or collective mismatch with exactly one outcome, the serial comb of the rank-ordered population with rank 0's offset. Propagator wrappers: offset = uniform(split(key)[1]), key advanced once; not_a_comm == one-rank world.",
+        note="offsets within 2^-30 of a breakpoint are not probed except at rounding-free ties; <= 8 walkers, <= 4 ranks; thorough also runs driver.afqmc on 2 rank threads under all schedules with <= 1 preemption.",
+        design="2/C07"),
 }
 
 NOT_YET = {}
